@@ -16,6 +16,8 @@ import (
 	"github.com/bokysan/socketace/v2/internal/client/upstream"
 	"github.com/bokysan/socketace/v2/internal/server"
 	"github.com/bokysan/socketace/v2/internal/socketace"
+	sadns "github.com/bokysan/socketace/v2/internal/streams/dns"
+	mdns "github.com/miekg/dns"
 	"github.com/bokysan/socketace/v2/internal/util/addr"
 )
 
@@ -181,6 +183,24 @@ func init() {
 				relays = append(relays, nil)
 				p := ln.Addr().String()
 				ups.Data = append(ups.Data, mkUpstream("tcp://localhost:"+p[strings.LastIndex(p, ":")+1:]))
+			case "dnssilent":
+				// a DNS tunnel endpoint that completes the tunnel's own negotiation and then never says a word at the session layer
+				port := freePort()
+				comm, err := sadns.NewNetConnectionServerCommunicator(&mdns.Server{Addr: fmt.Sprintf("127.0.0.1:%d", port), Net: "udp"})
+				if err != nil {
+					panic("verifharness: dns listener: " + err.Error())
+				}
+				dl := sadns.NewServerDnsListener("example.org", comm)
+				stops = append(stops, func() { dl.Close() })
+				go func() {
+					for {
+						if _, err := dl.Accept(); err != nil { // accepted and left alone
+							return
+						}
+					}
+				}()
+				relays = append(relays, nil)
+				ups.Data = append(ups.Data, mkUpstream(fmt.Sprintf("dns://example.org?direct=false&dns=127.0.0.1:%d", port)))
 			case "hserror", "silent":
 				ln, err := net.Listen("tcp", "127.0.0.1:0")
 				if err != nil {
@@ -235,6 +255,8 @@ func init() {
 		for i := 0; i < n; i++ {
 			if b := a[3+i].W; b == "silent" || b == "stalls" {
 				slow++
+			} else if b == "dnssilent" {
+				slow += 3 // (the tunnel's own negotiation comes first: about two seconds on loopback)
 			}
 		}
 		appWait := 2500*time.Millisecond + time.Duration(slow)*socketace.HandshakeTimeout
